@@ -111,7 +111,8 @@ fn nonce_case(cfg: Cfg, seeded: bool, wit_variant: usize) -> Box<dyn Case> {
                 }
             }
         }
-        let seed = seed_scalar(7);
+        // witness variant 0: an ordinary seed; variant 1: a corner of the scalar field (mostly 0) -- a seed like any other
+        let seed = if wit_variant == 0 { seed_scalar(7) } else { [Scalar::ZERO, Scalar::ONE, Scalar::ZERO, -Scalar::ONE, Scalar::ZERO, Scalar::ZERO][cfg.d - 1] };
         if seeded {
             wit.seed = Some(seed);
         }
